@@ -3,7 +3,7 @@ import EaselModel.Buffer.SimBasic
 namespace EaselModel.Buffer
 
 theorem AnchorOnly.pg {b b' : Buf} (h : AnchorOnly b b') (p : PG b) : PG b' := by
-  obtain ⟨a, n, rfl⟩ := h; exact p
+  obtain ⟨a, n, t, rfl⟩ := h; exact p
 
 /-- Rebuild `R` after an operation that only rewrites the anchor record. -/
 theorem R.of_anchorOnly {P : Nat} {a a' : AState} {s s' : Sess} (r : R P a s) (ao : AnchorOnly s.b s'.b)
@@ -17,6 +17,13 @@ theorem R.of_anchorOnly {P : Nat} {a a' : AState} {s s' : Sess} (r : R P a s) (a
     by rw [fr.ps]; exact r.ps, by rw [fr.hasfp, fr.mode]; exact r.modefp, ?_, anch, aanch, by rw [hslp, hlp]; rfl, ?_⟩
   · intro hf; rw [fr.hasfp] at hf; rw [m3]; exact r.base0 hf
   · intro p hp; rw [hlp] at hp; cases hp
+
+/-- the flag `bf->stable` is invisible to the simulation relation -/
+theorem R.set_stab {P : Nat} {a : AState} {b : Buf} {st : Option Nat} (r : R P a { b := b, lastp := none, stable := st })
+    (hlp : a.lastp = none) (v : Bool) : R P a { b := { b with stab := v }, lastp := none, stable := st } :=
+  r.of_anchorOnly (s' := { b := { b with stab := v }, lastp := none, stable := st }) (a' := a)
+    ⟨b.anchor, b.nanchor, v, rfl⟩ rfl rfl hlp rfl
+    ⟨r.wf.hwin, r.wf.hpos, r.wf.hanch, r.wf.hps, r.wf.heof, r.wf.hnofp⟩ r.aok r.nfa r.anch r.aanch
 
 theorem aRaise_none (a : AState) (o : Nat) (h : a.anchor = none) : aRaise a o = a := by
   unfold aRaise; rw [h]
@@ -180,7 +187,7 @@ theorem setAnchor_sim' {P : Nat} {a : AState} {s : Sess} (r : R P a s) (o : Nat)
     rw [setAnchor_nofp s.b o hf]
     refine ⟨rfl, ?_, hs4⟩
     exact r.of_anchorOnly (s' := { b := s.b, lastp := none, stable := st }) (a' := { aSetAnchor a o with lastp := none })
-      ⟨s.b.anchor, s.b.nanchor, rfl⟩ hs1 hs2 rfl rfl r.wf r.aok r.nfa (fun hh => by rw [hf] at hh; cases hh)
+      ⟨s.b.anchor, s.b.nanchor, s.b.stab, rfl⟩ hs1 hs2 rfl rfl r.wf r.aok r.nfa (fun hh => by rw [hf] at hh; cases hh)
       (by intro A hA; exact hs3 A hA)
   | true =>
     obtain ⟨r1, r2⟩ := r.anch hf
@@ -193,8 +200,8 @@ theorem setAnchor_sim' {P : Nat} {a : AState} {s : Sess} (r : R P a s) (o : Nat)
       rw [setAnchor_new s.b o hf hbase hin (Or.inl hcn)]
       refine ⟨rfl, ?_, hs4⟩
       refine r.of_anchorOnly (s' := { b := { s.b with anchor := some (o - s.b.base), nanchor := 1 }, lastp := none, stable := st })
-        (a' := { aSetAnchor a o with lastp := none }) ⟨_, _, rfl⟩ hs1 hs2 rfl rfl ?_ ?_ ?_ ?_ (by intro A hA; exact hs3 A hA)
-      · exact AnchorOnly.wf' ⟨_, _, rfl⟩ r.wf (by intro x hx; simp at hx; omega)
+        (a' := { aSetAnchor a o with lastp := none }) ⟨_, _, _, rfl⟩ hs1 hs2 rfl rfl ?_ ?_ ?_ ?_ (by intro A hA; exact hs3 A hA)
+      · exact AnchorOnly.wf' ⟨_, _, _, rfl⟩ r.wf (by intro x hx; simp at hx; omega)
       · intro x _; exact Nat.le_refl _
       · intro hh; rw [hf] at hh; cases hh
       · intro _
@@ -210,8 +217,8 @@ theorem setAnchor_sim' {P : Nat} {a : AState} {s : Sess} (r : R P a s) (o : Nat)
       · rw [setAnchor_new s.b o hf hbase hin (Or.inr ⟨a0, hca, by omega⟩)]
         refine ⟨rfl, ?_, hs4⟩
         refine r.of_anchorOnly (s' := { b := { s.b with anchor := some (o - s.b.base), nanchor := 1 }, lastp := none, stable := st })
-          (a' := { aSetAnchor a o with lastp := none }) ⟨_, _, rfl⟩ hs1 hs2 rfl rfl ?_ ?_ ?_ ?_ (by intro A hA; exact hs3 A hA)
-        · exact AnchorOnly.wf' ⟨_, _, rfl⟩ r.wf (by intro x hx; simp at hx; omega)
+          (a' := { aSetAnchor a o with lastp := none }) ⟨_, _, _, rfl⟩ hs1 hs2 rfl rfl ?_ ?_ ?_ ?_ (by intro A hA; exact hs3 A hA)
+        · exact AnchorOnly.wf' ⟨_, _, _, rfl⟩ r.wf (by intro x hx; simp at hx; omega)
         · intro x _; exact Nat.le_refl _
         · intro hh; rw [hf] at hh; cases hh
         · intro _
@@ -222,8 +229,8 @@ theorem setAnchor_sim' {P : Nat} {a : AState} {s : Sess} (r : R P a s) (o : Nat)
       · rw [setAnchor_same s.b o a0 hf hbase hin hca (by omega)]
         refine ⟨rfl, ?_, hs4⟩
         refine r.of_anchorOnly (s' := { b := { s.b with nanchor := s.b.nanchor + 1 }, lastp := none, stable := st })
-          (a' := { aSetAnchor a o with lastp := none }) ⟨s.b.anchor, _, rfl⟩ hs1 hs2 rfl rfl ?_ ?_ ?_ ?_ (by intro A hA; exact hs3 A hA)
-        · exact AnchorOnly.wf' ⟨s.b.anchor, _, rfl⟩ r.wf (by intro x hx; exact r.wf.hanch x hx)
+          (a' := { aSetAnchor a o with lastp := none }) ⟨s.b.anchor, _, _, rfl⟩ hs1 hs2 rfl rfl ?_ ?_ ?_ ?_ (by intro A hA; exact hs3 A hA)
+        · exact AnchorOnly.wf' ⟨s.b.anchor, _, _, rfl⟩ r.wf (by intro x hx; exact r.wf.hanch x hx)
         · intro x _; show 1 ≤ s.b.nanchor + 1; omega
         · intro hh; rw [hf] at hh; cases hh
         · intro _
@@ -234,7 +241,7 @@ theorem setAnchor_sim' {P : Nat} {a : AState} {s : Sess} (r : R P a s) (o : Nat)
       · rw [setAnchor_right s.b o a0 hf hbase hin hca (by omega)]
         refine ⟨rfl, ?_, hs4⟩
         refine r.of_anchorOnly (s' := { b := s.b, lastp := none, stable := st })
-          (a' := { aSetAnchor a o with lastp := none }) ⟨s.b.anchor, s.b.nanchor, rfl⟩ hs1 hs2 rfl rfl r.wf r.aok r.nfa ?_
+          (a' := { aSetAnchor a o with lastp := none }) ⟨s.b.anchor, s.b.nanchor, s.b.stab, rfl⟩ hs1 hs2 rfl rfl r.wf r.aok r.nfa ?_
           (by intro A hA; exact hs3 A hA)
         intro _
         rw [aSetAnchor_right a o A0 han h]
@@ -424,10 +431,10 @@ theorem sim_setStableAnchor' (P : Nat) (o : Nat) (a : AState) (s : Sess) (r : R 
     obtain ⟨q1, _⟩ := h2.anch hf1
     obtain ⟨a1, ha1, _⟩ := absAnchor_some (by rw [q1]; exact hA' : b1.absAnchor = some A')
     by_cases hle : a1 ≤ b1.pos
-    · have e : setStableAnchor s.b o = (.ok, dropFront { b1 with anchor := some 0 } a1) := by
+    · have e : setStableAnchor s.b o = (.ok, { dropFront { b1 with anchor := some 0 } a1 with stab := true }) := by
         unfold setStableAnchor
         simp only [hf, Bool.not_true, Bool.false_eq_true, if_false, hsa, ha1, hle, if_true]
-      have r2 := h2.rebase (st' := (s.step (.setStableAnchor o)).2.stable) hf1 a1 ha1 hle
+      have r2 := (h2.rebase (st' := (s.step (.setStableAnchor o)).2.stable) hf1 a1 ha1 hle).set_stab rfl true
       refine ⟨?_, ?_⟩
       · show (⟨(setStableAnchor s.b o).1, [], (setStableAnchor s.b o).2.base + (setStableAnchor s.b o).2.pos⟩ : Obs) = ⟨.ok, [], a.cur⟩
         rw [e]
@@ -437,10 +444,10 @@ theorem sim_setStableAnchor' (P : Nat) (o : Nat) (a : AState) (s : Sess) (r : R 
       · refine r2.stable_irrel ?_ rfl
         show (setStableAnchor s.b o).2 = _
         rw [e]
-    · have e : setStableAnchor s.b o = (.ok, dropFront { b1 with anchor := some (a1 - b1.pos) } b1.pos) := by
+    · have e : setStableAnchor s.b o = (.ok, { dropFront { b1 with anchor := some (a1 - b1.pos) } b1.pos with stab := true }) := by
         unfold setStableAnchor
         simp only [hf, Bool.not_true, Bool.false_eq_true, if_false, hsa, ha1, hle]
-      have r2 := h2.rebase_ahead (st' := (s.step (.setStableAnchor o)).2.stable) hf1 a1 ha1 (by omega)
+      have r2 := (h2.rebase_ahead (st' := (s.step (.setStableAnchor o)).2.stable) hf1 a1 ha1 (by omega)).set_stab rfl true
       refine ⟨?_, ?_⟩
       · show (⟨(setStableAnchor s.b o).1, [], (setStableAnchor s.b o).2.base + (setStableAnchor s.b o).2.pos⟩ : Obs) = ⟨.ok, [], a.cur⟩
         rw [e]
